@@ -13,19 +13,24 @@ USES_GEN = ["fgdefault", "tables"]
 MODEL_FILES = fc.MODEL_FILES + ["Proofs/FGDefaultTree.v"]
 IMPORTS = fc.IMPORTS[:-1] + " Proofs.FGDefaultTree."
 CHECKS = ["agree", "history"]
+MAX_STEPS = 3
 CHUNK = 10
 AGREE_IS_PROPERTY = True
 CORRESPONDENCE = ("Model.Query.{fresh_query,get_tree,get,query} ~ fgutils.query.FGQuery.{__init__,get}, "
                   "fgutils.fgconfig.FGConfigProvider.get_tree (answer list exactly; the same object after a history of "
                   "earlier get() calls; fresh interpreters under PYTHONHASHSEED in {0,1,2,3,4,7,random})")
-RULE = ("molecules as for C05 (FG-rich fragments, 1-14 heavy atoms, all id schemes, explicit hydrogens none/some/all), default "
+RULE = ("(i) molecules as for C05 (FG-rich fragments, 1-14 heavy atoms, all id schemes, explicit hydrogens none/some/all), default "
         "configuration (75%) or a generated list; each case = a history of 0-2 earlier molecules queried on the SAME FGQuery "
         "object, then the molecule of interest. In process (PYTHONHASHSEED=0): the answer after the history must equal the "
         "model's answer of a fresh object ('agree') and the model's answer after the same history ('history'). In fresh "
         "interpreters under 7 hash seeds (batched): the molecule is asked twice on one new object and once on another new "
         "object; all 21 answers must equal the in-process answer; the argument graph is deep-compared (node order, attributes, "
-        "adjacency order) before/after every get. non-trivial = at least one group reported; distinct = distinct "
-        "(history, molecule, configuration, flag)")
+        "adjacency order) before/after every get. (ii) same-names sequences: two configuration lists A, B with the "
+        "same group names in the same order but different patterns / group_atoms / anti-patterns, asked within ONE interpreter in the order A,B | A,B,A | "
+        "B,A,B, every time on a fresh FGQuery built through a random public construction path (FGQuery(config=list), FGQuery(mapper=..., config=list), "
+        "FGQuery(config=FGConfigProvider(list)) with and without an explicit mapper): every answer must equal the model's answer for that "
+        "(configuration, molecule) alone; the same sequences are repeated in fresh interpreters under the other hash seeds. "
+        "non-trivial = at least one group reported; distinct = distinct (history / step sequence, molecule, configuration, flag, construction path)")
 TRUSTED = c05.TRUSTED + [
     "hash-seed independence and non-mutation of the argument are runtime facts of CPython objects (a pure Gallina model has "
     "neither hash randomisation nor aliasing): they are validated by the multi-seed runs and the before/after comparison, not proved"]
@@ -34,7 +39,8 @@ ASSUMPTIONS = c05.ASSUMPTIONS + [
 
 
 def generate(seed, tier, ncases=None):
-    n = ncases or (90 if tier == "quick" else 1200)
+    n = ncases or (90 if tier == "quick" else 1000)
+    n_steps = max(2, n // 2)
     cases = []
     for i in range(n):
         rng = lib.rng_for(seed, ID, i)
@@ -42,12 +48,47 @@ def generate(seed, tier, ncases=None):
         k = rng.choice([0, 0, 1, 2])
         c["history"] = [gens.reid(rng, fc.rand_molecule(rng, max_heavy=8)[0])[0] for _ in range(k)]
         cases.append(c)
+    for i in range(n_steps):
+        cases.append(gen_steps_case(lib.rng_for(seed, ID, 500000 + i)))
     attach_seed_answers(cases, fc.SEEDS if tier == "quick" else fc.SEEDS + ["11", "12345", "random"])
     for c in cases:
         yield c
 
 
+def gen_steps_case(rng):
+    """configuration lists A and B with the same names (in the same order) but different patterns / group_atoms /
+    anti-patterns, asked in ONE interpreter in the order A,B | A,B,A | B,A,B, each time on a fresh FGQuery built
+    through a random public construction path: every answer must be the answer for that configuration alone"""
+    mixed = rng.random() < 0.3
+    if mixed:
+        # lower-case aromatic and upper-case ':' patterns: the specificity order needs ignore_case=True on every path
+        a = fc.named(rng.sample(fc.IC_POOL, rng.randint(2, 5)) + rng.sample(["RO", "RN", "CO", "CN"], rng.randint(0, 2)), "m")
+    else:
+        a = fc.rand_config_list(rng, kmin=2, kmax=6, anti_list_p=0.3, ga_p=0.5)
+    if rng.random() < 0.5:
+        for i, s in enumerate(a):
+            s["name"] = "g%d" % i
+    b = fc.same_names_variant(rng, a)
+    order = rng.choice([[a, b], [a, b, a], [b, a, b]])
+    same_mol = rng.random() < 0.5
+    def molecule():
+        first = rng.choice(fc.AROMATIC_FRAGMENTS) if mixed else None
+        return gens.reid(rng, fc.rand_molecule(rng, max_heavy=10, first=first)[0])[0]
+    mol = molecule()
+    steps = []
+    req_h = rng.random() < 0.5
+    for specs in order:
+        g = mol if same_mol else molecule()
+        steps.append({"specs": specs, "req_h": req_h, "via": rng.choice(fc.QUERY_VIAS), "graph": g})
+    last = steps[-1]
+    return {"kind": "same-names", "steps": steps, "graph": last["graph"], "specs": last["specs"], "req_h": last["req_h"],
+            "scheme": "steps", "hmode": "?", "history": []}
+
+
 def job_of(c):
+    if "steps" in c:
+        return {"kind": "steps", "steps": [{"specs": st["specs"], "req_h": st["req_h"], "via": st["via"],
+                                            "graph": ct.graph_py(st["graph"])} for st in c["steps"]]}
     return {"kind": "query", "specs": c["specs"], "req_h": c["req_h"], "graph": ct.graph_py(c["graph"])}
 
 
@@ -58,6 +99,13 @@ def attach_seed_answers(cases, seeds):
 
 
 def corpus():
+    cases = list(_corpus())
+    attach_seed_answers(cases, fc.SEEDS[:4])
+    for c in cases:
+        yield c
+
+
+def _corpus():
     for c in c05.corpus():
         if c["kind"] in ("corpus-D9", "corpus-D7", "corpus-D16", "corpus-typeerror"):
             c["history"] = []
@@ -70,9 +118,25 @@ def corpus():
     yield {"graph": parse("O=CCl"), "req_h": True, "scheme": "corpus", "hmode": "none", "kind": "corpus-D9",
            "specs": [{"name": "co", "pattern": "C=O"}, {"name": "ald", "pattern": "RC(=O)H", "group_atoms": [1, 2]},
                      {"name": "acl", "pattern": "RC(=O)Cl", "group_atoms": [1, 2, 3]}], "history": [parse("C=O")]}
+    # same names, other patterns, one interpreter: A, B, A through different construction paths
+    a = [{"name": "x", "pattern": "C=O"}, {"name": "y", "pattern": "RC(=O)O", "group_atoms": [1, 2, 3]}]
+    b = [{"name": "x", "pattern": "CO"}, {"name": "y", "pattern": "RN"}]
+    mol = parse("NCC(=O)O")
+    steps = [{"specs": sp, "req_h": True, "via": via, "graph": mol}
+             for sp, via in [(a, "query-list"), (b, "query-provider"), (a, "query-provider-mapper"), (b, "query-mapper")]]
+    yield {"kind": "same-names", "steps": steps, "graph": mol, "specs": b, "req_h": True, "scheme": "steps", "hmode": "?", "history": []}
+    # lower-case aromatic atoms vs upper-case ':' patterns through the provider WITHOUT a mapper argument
+    ar = [{"name": "ar", "pattern": "C:C"}, {"name": "phen", "pattern": "C:COH", "group_atoms": [2, 3]}, {"name": "ani", "pattern": "ccN", "group_atoms": [2]}]
+    mol2 = parse("Nc1ccccc1O")
+    steps = [{"specs": ar, "req_h": True, "via": via, "graph": mol2} for via in fc.QUERY_VIAS]
+    yield {"kind": "same-names", "steps": steps, "graph": mol2, "specs": ar, "req_h": True, "scheme": "steps", "hmode": "?", "history": []}
 
 
 def run_impl(c):
+    if "steps" in c:
+        outs, mutated = fc.run_steps(c["steps"])
+        c["_mutated"] = mutated
+        return ("steps", outs)
     from fgutils.query import FGQuery
     g = gens.copy_exact(c["graph"])
     hist = [gens.copy_exact(h) for h in c["history"]]
@@ -101,6 +165,31 @@ def py_invariants(c, out):
     msgs = []
     if c.get("_mutated"):
         msgs.append("FGQuery.get modified the graph it was given")
+    if "steps" in c:
+        mine = [fc.norm_answer(x) for x in out[1]]
+        # model-independent: steps with the same (configuration, molecule, flag) must give the same answer, whatever
+        # was asked in between and whichever construction path was used
+        first = {}
+        for st, a in zip(c["steps"], mine):
+            k = (tuple(fc.spec_key(x) for x in st["specs"]), ct.graph_canon(st["graph"]), st["req_h"])
+            if k in first and first[k][1] != a:
+                msgs.append("the same configuration and molecule give %r via %s and %r via %s within one interpreter "
+                            "(the answer depends on earlier queries or on the construction path)"
+                            % (first[k][1], first[k][0], a, st["via"]))
+                break
+            first.setdefault(k, (st["via"], a))
+        ans = c.get("_seed_answers")
+        if ans is None:
+            ans = {s: fc.run_worker([job_of(c)], s)[0] for s in fc.SEEDS[:4]}
+        for s, r in ans.items():
+            if r["mutated"]:
+                msgs.append("FGQuery.get modified the graph it was given (PYTHONHASHSEED=%s)" % s)
+            if r["answers"] != mine:
+                msgs.append("under PYTHONHASHSEED=%s the answers of the step sequence are %r, under PYTHONHASHSEED=0 they are %r"
+                            % (s, r["answers"], mine))
+            if msgs:
+                break
+        return msgs[:2]
     mine = fc.norm_answer(out)
     ans = c.get("_seed_answers")
     if ans is None:
@@ -120,6 +209,15 @@ def py_invariants(c, out):
 
 
 def coq_case(c, out):
+    if "steps" in c:
+        defs, parts = {}, []
+        for k, (st, o) in enumerate(zip(c["steps"], out[1])):
+            defs["g%d" % k] = ct.graph(st["graph"])
+            defs["cfgs%d" % k] = fc.cfgs_term(st["specs"])
+            defs["out%d" % k] = fc.answer_term(o)
+            parts.append("answer_agreeb (query default_mapper $cfgs%d %s $g%d) $out%d" % (k, ct.b(st["req_h"]), k, k))
+        return {"defs": defs, "checks": {"agree": " && ".join(parts), "history": "true"},
+                "diag": ["query default_mapper $cfgs%d %s $g%d" % (k, ct.b(st["req_h"]), k) for k in range(len(c["steps"]))]}
     defs = {"g": ct.graph(c["graph"]), "out": fc.answer_term(out),
             "hist": "(%s : list graph)" % ct.lst([ct.graph(h) for h in c["history"]])}
     rq = ct.b(c["req_h"])
@@ -139,28 +237,54 @@ def coq_case(c, out):
 
 
 def describe(c):
+    if "steps" in c:
+        return {"kind": c["kind"], "steps": [{"specs": st["specs"], "req_h": st["req_h"], "via": st["via"],
+                                              "graph": ct.graph_py(st["graph"])} for st in c["steps"]]}
     d = c05.describe(c)
     d["history"] = [ct.graph_py(h) for h in c["history"]]
     return d
 
 
 def from_json(d):
+    if "steps" in d:
+        steps = [{"specs": st["specs"], "req_h": st["req_h"], "via": st["via"], "graph": ct.graph_from_py(st["graph"])}
+                 for st in d["steps"]]
+        last = steps[-1]
+        return {"kind": d.get("kind", "same-names"), "steps": steps, "graph": last["graph"], "specs": last["specs"],
+                "req_h": last["req_h"], "scheme": "steps", "hmode": "?", "history": []}
     c = c05.from_json(d)
     c["history"] = [ct.graph_from_py(h) for h in d.get("history", [])]
     return c
 
 
-describe_out = c05.describe_out
+def describe_out(out):
+    if out[0] == "steps":
+        return {"status": "steps", "answers": [c05.describe_out(o) for o in out[1]]}
+    return c05.describe_out(out)
 
 
 def key(c):
+    if "steps" in c:
+        return ("steps",) + tuple((ct.graph_canon(st["graph"]), tuple(fc.spec_key(x) for x in st["specs"]), st["req_h"], st["via"])
+                                  for st in c["steps"])
     return c05.key(c) + (tuple(ct.graph_canon(h) for h in c["history"]),)
 
 
-nontrivial = c05.nontrivial
+def nontrivial(c, out):
+    if out[0] == "steps":
+        return any(o[0] == "ok" and len(o[1]) > 0 for o in out[1])
+    return c05.nontrivial(c, out)
 
 
 def classes(c, out):
+    if out[0] == "steps":
+        yield "kind=same-names"
+        yield "steps=%d" % len(c["steps"])
+        for st in c["steps"]:
+            yield "via=" + st["via"]
+        for o in out[1]:
+            yield "result=" + o[0]
+        return
     for x in c05.classes(c, out):
         if not x.startswith("fg="):
             yield x
